@@ -141,7 +141,10 @@ def _file_tree(cd, a):
 
 
 def encode(c):
-    a = art(c)
+    try:
+        a = art(c)
+    except Exception:           # run_impl reports 'crash' for the same case
+        return [4, [], 0, []]
     cd = _coder(c)
     k = c['kind']
     if k == 'h5all':
@@ -158,7 +161,6 @@ def encode(c):
 
 def decode(tree, c):
     cd = _coder(c)
-    art(c)
     k = c['kind']
     if k == 'h5all':
         return {'table': T.norm_snap(cd.untable(tree[0])), 'wf': bool(tree[1])}
@@ -227,6 +229,9 @@ def oracle(c, obs):
     k = c['kind']
     if k == 'h5all':
         return [] if obs.get('wf') else ['C14: stored file does not meet the well-formedness the theorems assume']
+    if len(set(c['ids'])) != len(c['ids']) or not c['ids']:
+        return []        # a request that is empty or repeats an id is outside the property's domain
+                         # (the model is still compared with the code on it)
     ref, have = reference(c)
     unknown = [i for i in c['ids'] if i not in have]
     what = '%s axis=%s ids=%s%s' % (k, c['axis'], c['ids'], ' ser=' + c['ser'] if k == 'cmd_json' else '')
@@ -304,7 +309,9 @@ def cases_for(rng, spec, gen_by, tier, readers=None):
         rng.shuffle(bad)
         for k in ('h5', 'h5nomd', 'cmd_h5', 'json'):
             yield dict(base, kind=k, axis=axis, ids=list(bad))
-        yield dict(base, kind='cmd_json', axis=axis, ids=list(bad), ser=rng.choice(SERS))
+        ser = rng.choice(SERS)
+        if not readers or 'cmd_json' in readers:
+            yield dict(base, kind='cmd_json', axis=axis, ids=list(bad), ser=ser)
         # an id of the OTHER axis is unknown on this one
         oth = spec['sids'] if axis == 'observation' else spec['oids']
         if oth and oth[0] not in ids:
@@ -321,6 +328,17 @@ def gen(rng, tier):
         try:
             art({'spec': spec, 'gen': gen_by})
         except Exception:        # the library cannot write this table (other properties' business)
+            continue
+        if risky_scanner(spec) or risky_mdkey(spec):
+            # known findings F34 / F35: such tables go through every reader except the JSON slicer in the
+            # main stream; the slicer sees them as separately tagged witness cases (2 requests per axis)
+            for c in cases_for(rng, spec, gen_by, tier, readers=('h5', 'h5nomd', 'cmd_h5', 'json')):
+                yield c
+            for axis in ('observation', 'sample'):
+                ids = spec['oids'] if axis == 'observation' else spec['sids']
+                for sub in ([ids[0]], list(ids)):
+                    yield {'spec': spec, 'gen': gen_by, 'kind': 'cmd_json', 'axis': axis, 'ids': sub,
+                           'ser': rng.choice(SERS), 'stream': 'known-finding-witness'}
             continue
         for c in cases_for(rng, spec, gen_by, tier):
             yield c
@@ -364,6 +382,8 @@ def _risky_strings(spec):
 
 def classify(c):
     tags = ['kind:' + c['kind']]
+    if c.get('stream'):
+        tags.append('stream:' + c['stream'])
     try:
         tags.append('layout:' + art(c)['layout'])
     except Exception:
@@ -448,34 +468,40 @@ def shrink(c):
 
 
 # ---------------------------------------------------------------- known-finding signatures
-def _is_cmd_json_failure(c, io, fails):
-    return c['kind'] == 'cmd_json' and bool(fails) and all(i in (c['spec']['oids'] if c['axis'] == 'observation' else c['spec']['sids']) for i in c['ids'])
+def _known_ids_only(c):
+    ids = c['spec']['oids'] if c['axis'] == 'observation' else c['spec']['sids']
+    return all(i in ids for i in c['ids'])
 
 
-def sig_zero_table(c, io, mo, fails):
-    """S1: "data": [] (all-zero table) makes the slicer raise"""
-    return _is_cmd_json_failure(c, io, fails) and all(v == 0 for r in c['spec']['mat'] for v in r) and io == ['err', 5]
+def risky_scanner(spec):
+    """F34: a string inside the rows / columns arrays that the bracket/quote scanner of direct_parse_key
+    cannot cross: it contains ] [ } { or an odd number of double quotes"""
+    return any(any(ch in s for ch in '[]{}') or s.count('"') % 2 == 1 for s in _risky_strings(spec))
 
 
-def sig_none_kept(c, io, mo, fails):
-    """S2: no stored entry survives the subset: the slicer writes "data": [[]]"""
-    return (_is_cmd_json_failure(c, io, fails) and io[0] == 'text' and '"data": [[]]' in io[1]
-            and all(v == 0 for r in _subset_matrix(c) for v in r))
+def risky_mdkey(spec):
+    """F35: observation metadata with a key named "columns" (found before the real top-level key)"""
+    found = []
+
+    def walk(x):
+        if isinstance(x, dict):
+            for k, v in x.items():
+                found.append(str(k)); walk(v)
+        elif isinstance(x, (list, tuple)):
+            for v in x:
+                walk(v)
+    walk(spec.get('omd'))
+    return 'columns' in found
 
 
 def sig_scanner(c, io, mo, fails):
-    """S3: bracket/quote scanner of direct_parse_key confused by a string inside rows/columns"""
-    risky = any(any(ch in s for ch in '[]{}') or s.count('"') % 2 == 1 for s in _risky_strings(c['spec']))
-    return _is_cmd_json_failure(c, io, fails) and risky
+    return c['kind'] == 'cmd_json' and bool(fails) and _known_ids_only(c) and risky_scanner(c['spec'])
 
 
 def sig_md_key(c, io, mo, fails):
-    """S4: a metadata key named like a top-level key that follows it ("columns" inside rows)"""
-    keys = set()
-    for m in (c['spec'].get('omd') or []):
-        keys.update((m or {}).keys())
-    return _is_cmd_json_failure(c, io, fails) and 'columns' in keys
+    return c['kind'] == 'cmd_json' and bool(fails) and _known_ids_only(c) and risky_mdkey(c['spec'])
 
 
-# keys are the ids under which the lead registers the findings in known_findings.jsonl
-SIGNATURES = {'C14-S1': sig_zero_table, 'C14-S2': sig_none_kept, 'C14-S3': sig_scanner, 'C14-S4': sig_md_key}
+# keys = ids in known_findings.jsonl.  core.run_check accepts a match only when the model reproduces
+# the implementation's observable, so a slicer failure of any other origin stays a violation.
+SIGNATURES = {'F34': sig_scanner, 'F35': sig_md_key}
